@@ -2,7 +2,8 @@
   C04 — RAIRE assertions, if any, are true of the CVRs and exclude every other winner.
 
   Theorems are about `Shangrla.Raire.computeRaireAssertions`, the literal model of
-  `shangrla/raire/raire.py::compute_raire_assertions` (agap = 0) that the driver executes, for every
+  `shangrla/raire/raire.py::compute_raire_assertions` (agap = 0) that the driver executes — and, in the
+  section "positive allowed gap", about `computeRaireAssertionsG gap` for every `agap` test — for every
   difficulty function `asn` into a type with a lawful total preorder (`DiffOrd.Lawful`), every ballot
   profile, every duplicate-free candidate list of length ≥ 2, every reported winner, every diving hint
   and every fuel; `raire_terminates` shows that `raireFuel` iterations always suffice and that no
@@ -141,6 +142,100 @@ theorem raire_correct (asn : Nat → Nat → Nat → Nat → D) (C : Contest α)
     raire_sufficient asn C cvrs winner hC hn fuel as h,
     raire_empty_iff asn C cvrs winner hC hn fuel as h⟩
 
+/-! ### the generator with a positive allowed gap (`agap > 0`, raire.py L158-163)
+
+`computeRaireAssertionsG gap` is the generator whose main loop starts with the test
+`agap > 0 and lowerbound > 0 and max_on_frontier - lowerbound <= agap` (the float test being the parameter `gap`,
+see Model/Raire.lean).  `GapOK gap`: the test is false when the largest estimate on the frontier is `inf`
+(`inf - lowerbound` is `inf` or `nan`; true of the Python test for every finite `agap`).  Soundness, sufficiency,
+"empty exactly when", absence of exceptions and termination hold for EVERY such test — whenever the early exit
+fires.  (Optimality, C15, is stated for `agap = 0` only.) -/
+
+/-- **C04, truth, for every `agap`.** -/
+theorem raire_true_gap (gap : Diff D → Diff D → Bool) (hgap : GapOK gap)
+    (asn : Nat → Nat → Nat → Nat → D) (C : Contest α) (cvrs : List (Option (Ballot α)))
+    (winner : α) (hC : C.candidates.Nodup) (hn : 2 ≤ C.candidates.length) (fuel : Nat)
+    (as : List (Assertion α D)) (h : computeRaireAssertionsG gap asn C cvrs winner fuel = Res.ok as) :
+    ∀ a ∈ as, holds cvrs a ∧ Fam asn C cvrs a := by
+  intro a ha
+  have hne : as ≠ [] := fun h0 => by rw [h0] at ha; cases ha
+  have := ((computeG_spec asn C cvrs winner hgap hC hn h).2 hne).1 a ha
+  exact ⟨this.2.2.2.2.1, this⟩
+
+/-- **C04, sufficiency, for every `agap`.** -/
+theorem raire_sufficient_gap (gap : Diff D → Diff D → Bool) (hgap : GapOK gap)
+    (asn : Nat → Nat → Nat → Nat → D) (C : Contest α) (cvrs : List (Option (Ballot α)))
+    (winner : α) (hC : C.candidates.Nodup) (hn : 2 ≤ C.candidates.length) (fuel : Nat)
+    (as : List (Assertion α D)) (h : computeRaireAssertionsG gap asn C cvrs winner fuel = Res.ok as)
+    (hne : as ≠ []) : ∀ π, Alt C.candidates winner π → ∃ a ∈ as, contradicts a π :=
+  ((computeG_spec asn C cvrs winner hgap hC hn h).2 hne).2
+
+/-- **C04, "empty exactly when", for every `agap`.** -/
+theorem raire_empty_iff_gap (gap : Diff D → Diff D → Bool) (hgap : GapOK gap)
+    (asn : Nat → Nat → Nat → Nat → D) (C : Contest α) (cvrs : List (Option (Ballot α)))
+    (winner : α) (hC : C.candidates.Nodup) (hn : 2 ≤ C.candidates.length) (fuel : Nat)
+    (as : List (Assertion α D)) (h : computeRaireAssertionsG gap asn C cvrs winner fuel = Res.ok as) :
+    as = [] ↔ ¬ ∃ S : List (Assertion α D), (∀ a ∈ S, Fam asn C cvrs a) ∧ Sufficient C.candidates winner S := by
+  obtain ⟨h1, h2⟩ := computeG_spec asn C cvrs winner hgap hC hn h
+  constructor
+  · intro h0 ⟨S, hS1, hS2⟩
+    obtain ⟨π, hπ, hbad⟩ := h1 h0
+    obtain ⟨a, ha, hc⟩ := hS2 π hπ
+    exact hbad a (hS1 a ha) hc
+  · intro himp
+    apply Classical.byContradiction
+    intro hne
+    obtain ⟨g1, g2⟩ := h2 hne
+    exact himp ⟨as, g1, g2⟩
+
+/-- **C04, "in particular", for every `agap`:** a reported winner who is not the unique possible IRV winner
+gets the empty list. -/
+theorem wrong_winner_empty_gap (gap : Diff D → Diff D → Bool) (hgap : GapOK gap)
+    (asn : Nat → Nat → Nat → Nat → D) (C : Contest α) (cvrs : List (Option (Ballot α)))
+    (winner : α) (hC : C.candidates.Nodup) (hn : 2 ≤ C.candidates.length) (fuel : Nat)
+    (as : List (Assertion α D)) (h : computeRaireAssertionsG gap asn C cvrs winner fuel = Res.ok as)
+    (hwf : ∀ b ∈ cvrs.filterMap id, BallotWF b) (π : List α) (hπ : Alt C.candidates winner π)
+    (hv : validIRV (cvrs.filterMap id) π) : as = [] := by
+  apply Classical.byContradiction
+  intro hne
+  obtain ⟨h1, h2⟩ := (computeG_spec asn C cvrs winner hgap hC hn h).2 hne
+  obtain ⟨a, ha, hc⟩ := h2 π hπ
+  exact valid_not_contradicted_fam asn C cvrs hwf π (hπ.1.nodup_iff.2 hC) hv a (h1 a ha) hc
+
+/-- no exception exit is reached, for every `agap` -/
+theorem raire_no_exception_gap (gap : Diff D → Diff D → Bool) (hgap : GapOK gap)
+    (asn : Nat → Nat → Nat → Nat → D) (C : Contest α) (cvrs : List (Option (Ballot α)))
+    (winner : α) (hC : C.candidates.Nodup) (hn : 2 ≤ C.candidates.length) (fuel : Nat) (e : Err) :
+    computeRaireAssertionsG gap asn C cvrs winner fuel ≠ Res.err e :=
+  computeG_no_err asn C cvrs winner hgap hC hn fuel e
+
+/-- termination within `raireFuel` iterations, for every `agap` -/
+theorem raire_terminates_gap (gap : Diff D → Diff D → Bool) (hgap : GapOK gap)
+    (asn : Nat → Nat → Nat → Nat → D) (C : Contest α) (cvrs : List (Option (Ballot α)))
+    (winner : α) (hC : C.candidates.Nodup) (hn : 2 ≤ C.candidates.length) (fuel : Nat)
+    (hfuel : raireFuel C winner ≤ fuel) :
+    ∃ as, computeRaireAssertionsG gap asn C cvrs winner fuel = Res.ok as :=
+  computeG_terminates asn C cvrs winner hgap hC hn fuel hfuel
+
+/-- **C04 in one statement, for every `agap`** (total correctness) -/
+theorem raire_correct_gap (gap : Diff D → Diff D → Bool) (hgap : GapOK gap)
+    (asn : Nat → Nat → Nat → Nat → D) (C : Contest α) (cvrs : List (Option (Ballot α)))
+    (winner : α) (hC : C.candidates.Nodup) (hn : 2 ≤ C.candidates.length) (fuel : Nat)
+    (hfuel : raireFuel C winner ≤ fuel) :
+    ∃ as, computeRaireAssertionsG gap asn C cvrs winner fuel = Res.ok as ∧
+      (∀ a ∈ as, holds cvrs a) ∧
+      (as ≠ [] → ∀ π, Alt C.candidates winner π → ∃ a ∈ as, contradicts a π) ∧
+      (as = [] ↔ ¬ ∃ S : List (Assertion α D), (∀ a ∈ S, Fam asn C cvrs a) ∧ Sufficient C.candidates winner S) := by
+  obtain ⟨as, h⟩ := raire_terminates_gap gap hgap asn C cvrs winner hC hn fuel hfuel
+  exact ⟨as, h, fun a ha => (raire_true_gap gap hgap asn C cvrs winner hC hn fuel as h a ha).1,
+    raire_sufficient_gap gap hgap asn C cvrs winner hC hn fuel as h,
+    raire_empty_iff_gap gap hgap asn C cvrs winner hC hn fuel as h⟩
+
+/-- the default `agap = 0` is the instance `noGap` (the definitions agree by unfolding) -/
+theorem noGap_is_default (asn : Nat → Nat → Nat → Nat → D) (C : Contest α) (cvrs : List (Option (Ballot α)))
+    (winner : α) (fuel : Nat) :
+    computeRaireAssertions asn C cvrs winner fuel = computeRaireAssertionsG noGap asn C cvrs winner fuel := rfl
+
 /-- the subsumption tests are sound (each of the four NEB branches and the NEN suffix test): an
 assertion that subsumes `o` contradicts every order ending in a tail `o` was recorded to rule out -/
 theorem subsumes_sound (cands : List α) (f o : Assertion α D) (hg : Good cands f)
@@ -191,6 +286,36 @@ example : ∃ as, computeRaireAssertions asnEx CEx cvrsEx 1 100 = Res.ok as ∧ 
     rw [h] at hs; exact absurd rfl hs
 -- the fuel bound of `raire_terminates` for this contest
 example : raireFuel CEx 1 = 113 := by rfl
+-- a gap test on this `Nat`-valued example: `mx - lb <= 5000` on finite values, false otherwise (`GapOK`)
+def gapEx : Diff Nat → Diff Nat → Bool
+  | Diff.fin m, Diff.fin l => decide (m - l ≤ 5000)
+  | _, _ => false
+example : GapOK gapEx := fun l => by cases l <;> rfl
+-- four candidates, 30 ballots, reported winner 2: the gap exit fires before the search is finished and the
+-- result is a different, costlier (largest difficulty 10000 instead of 7500) but still sufficient set
+def cvrsEx4 : List (Option (Ballot Nat)) :=
+  List.replicate 12 (balEx [0, 1, 2, 3]) ++ List.replicate 6 (balEx [1, 2, 0]) ++ List.replicate 5 (balEx [2, 3, 1]) ++
+  List.replicate 4 (balEx [3, 2, 1, 0]) ++ List.replicate 3 (balEx [2, 0])
+def CEx4 : Contest Nat := { candidates := [0, 1, 2, 3], totBallots := 30, outcome := [] }
+example : summary (computeRaireAssertions asnEx CEx4 cvrsEx4 2 100000) =
+    some [(true, 2, 3, [], 8, 4, 7500), (false, 2, 0, [1, 3], 18, 12, 5000), (false, 2, 1, [3], 12, 6, 5000),
+      (false, 0, 1, [3], 12, 6, 5000), (false, 0, 3, [], 12, 4, 3750)] := by rfl
+example : summary (computeRaireAssertionsG gapEx asnEx CEx4 cvrsEx4 2 100000) =
+    some [(true, 0, 3, [], 12, 9, 10000), (true, 2, 3, [], 8, 4, 7500), (false, 2, 0, [1, 3], 18, 12, 5000),
+      (false, 2, 1, [3], 12, 6, 5000), (false, 0, 1, [3], 12, 6, 5000)] := by rfl
+example : ∃ as, computeRaireAssertionsG gapEx asnEx CEx4 cvrsEx4 2 100000 = Res.ok as ∧ as ≠ [] ∧
+    ∀ π, Alt CEx4.candidates 2 π → ∃ a ∈ as, contradicts a π := by
+  have hs : summary (computeRaireAssertionsG gapEx asnEx CEx4 cvrsEx4 2 100000) =
+    some [(true, 0, 3, [], 12, 9, 10000), (true, 2, 3, [], 8, 4, 7500), (false, 2, 0, [1, 3], 18, 12, 5000),
+      (false, 2, 1, [3], 12, 6, 5000), (false, 0, 1, [3], 12, 6, 5000)] := by rfl
+  cases h : computeRaireAssertionsG gapEx asnEx CEx4 cvrsEx4 2 100000 with
+  | ok as =>
+    have hne : as ≠ [] := by
+      intro h0; rw [h, h0] at hs; simp [summary] at hs
+    exact ⟨as, rfl, hne, raire_sufficient_gap gapEx (fun l => by cases l <;> rfl) asnEx CEx4 cvrsEx4 2
+      (by decide) (by decide) 100000 as h hne⟩
+  | fuel => rw [h] at hs; simp [summary] at hs
+  | err e => rw [h] at hs; simp [summary] at hs
 -- an alternative order exists and a possible IRV count exists (hypotheses of `wrong_winner_empty`)
 example : Alt CEx.candidates 0 [2, 0, 1] := ⟨by decide, [2, 0], 1, rfl, by decide⟩
 
